@@ -560,7 +560,20 @@ def run_radar(script):
             if a == 'ok':
                 w = rd.wait_hb(2)
                 if w == 'timeout':
-                    raise Machinery('no heartbeat after connect')
+                    # slow machine, or a subject whose main loop does not turn without traffic? ask it to quit: a live
+                    # radar honours a quit request (C17) - only one that does is a machinery matter
+                    kq = rd.keys(b'q', timeout=T_SYNC)
+                    end = time.monotonic() + T_SYNC
+                    while not rd.exited() and time.monotonic() < end:
+                        rd.pump(0.05)
+                    if rd.exited():
+                        raise Machinery('no heartbeat after connect (the subject did honour a quit request)')
+                    obs['frozen_at'] = 0
+                    obs['quit_sent'] = True
+                    obs['unresponsive'] = True
+                    obs['notes'].append('unresponsive after connect: no draw within %.0f s, quit request %s and not honoured within %.0f s'
+                                        % (T_SYNC, 'not read' if kq == 'timeout' else 'read', T_SYNC))
+                    steps = []
         if script.get('filler', False) and not rd.exited():
             rd.set_filler(True, [bytes.fromhex(h) for h in script.get('filler_cycle', [])] or None)
         i = -1
